@@ -199,7 +199,7 @@ TECHNIQUE = 'Lean 4 simulation-relation proof (permutation invariance) + metamor
 # structural updates issued by steps: all viewers started at one instant see one committed state
 from harness import structstep as _ss          # noqa: E402
 from harness.mixins import add_family as _add_family   # noqa: E402
-_add_family(globals(), _ss, 'structstep', lambda case, impl: _ss.oracle(case, impl, who=('snapshot', 'viewer')))
+_add_family(globals(), _ss, 'structstep', lambda case, impl: _ss.oracle(case, impl, who=('snapshot', 'viewer', 'census')))
 
 # container-valued variables: a view/update computed from the committed snapshot must not change afterwards
 from harness import valuesnap as _vs               # noqa: E402
